@@ -79,6 +79,24 @@ pub struct Block {
     _transactions: Vec<Transaction>,
 }
 
+#[cfg(feature = "verif-hooks")]
+impl Block {
+    /// Verification hook: hash of the block.
+    pub fn verif_hash(&self) -> &BlockHash {
+        &self.hash
+    }
+
+    /// Verification hook: parent of the block.
+    pub fn verif_parent(&self) -> BlockId {
+        (self.parent, self.parent_hash.clone())
+    }
+
+    /// Verification hook: transactions of the block.
+    pub fn verif_transactions(&self) -> &[Transaction] {
+        &self._transactions
+    }
+}
+
 /// Dummy transaction containing payload bytes.
 ///
 /// A transaction cannot hold more than [`MAX_TRANSACTION_SIZE`] payload bytes.
